@@ -458,6 +458,17 @@ func (c *SpecCtx) ssaName(name string) (TV, bool) {
 		}
 		return TV{val, v.Type()}, true
 	}
+	if name == "$iter" {
+		// iteration variable of the innermost enclosing range-over-int loop
+		for d := b; d != nil; d = d.Idom() {
+			for _, in := range d.Instrs {
+				if p, ok := in.(*ssa.Phi); ok && p.Comment == "rangeint.iter" {
+					return get(p, false)
+				}
+			}
+		}
+		return TV{}, false
+	}
 	if name == "$idx" {
 		// completed iterations of the range loop whose header is b
 		for _, in := range b.Instrs {
@@ -535,7 +546,36 @@ func (c *SpecCtx) sel(n *ESel) TV {
 	return c.field(x, n.F)
 }
 
+// ghostFieldLoc resolves x.$name for a declared ghost field of the pointee type of x.
+func (c *SpecCtx) ghostFieldLoc(x TV, fname string) (Loc, bool) {
+	if !strings.HasPrefix(fname, "$") || x.T == nil {
+		return Loc{}, false
+	}
+	pt, ok := x.T.Underlying().(*types.Pointer)
+	if !ok {
+		return Loc{}, false
+	}
+	tk := typeKey(pt.Elem())
+	ty, ok := c.e.W.Contracts.GhostFields[tk+"::"+fname[1:]]
+	if !ok {
+		return Loc{}, false
+	}
+	var gt types.Type
+	switch ty {
+	case "string":
+		gt = types.Typ[types.String]
+	case "bool":
+		gt = types.Typ[types.Bool]
+	default:
+		gt = types.Typ[types.Int]
+	}
+	return Loc{Kind: locCell, Fam: "GF$" + sanitize(tk) + "$" + fname[1:], Ref: x.V.(Sc).T, Typ: gt}, true
+}
+
 func (c *SpecCtx) field(x TV, fname string) TV {
+	if gl, ok := c.ghostFieldLoc(x, fname); ok {
+		return TV{c.e.load(c.heap, gl), gl.Typ}
+	}
 	// slices expose pseudo-fields
 	if sv, ok := x.V.(SliceV); ok {
 		switch fname {
@@ -745,6 +785,12 @@ func (c *SpecCtx) call(n *ECall) TV {
 		}
 		k := c.e.mapKey(c.eval(n.Args[1]).V, mi.kt)
 		return TV{Sc{sel(c.e.mapDom(c.heap, mi, a.V.(Sc).T), k)}, mathBool}
+	case "cat": // string concatenation
+		as := evalArgs()
+		return TV{Sc{app(SStr, "s.cat", as[0].V.(Sc).T, as[1].V.(Sc).T)}, types.Typ[types.String]}
+	case "chr": // one-byte string
+		a := c.asInt(c.eval(n.Args[0]))
+		return TV{Sc{app(SStr, "s.chr", a)}, types.Typ[types.String]}
 	case "min", "max":
 		as := evalArgs()
 		x, y := c.asInt(as[0]), c.asInt(as[1])
